@@ -335,7 +335,28 @@ def fullVector (E : Env α β) (tle : β → β → Bool) (db : Db α) (cfg : Cf
     (peaks : List (Peak α)) (prec : Precursor α) : List (Cand β) :=
   scoreVector tle (scoreCand E cfg.ftol cfg.mfc info peaks.toArray) cfg.minMatched (initialHits E db cfg peaks prec).prelim.toList
 
+/-- `query.peaks.iter().map(|peak| peak.intensity).sum::<f32>()` — the last line of `remove_matched_peaks`
+    (`sumZero` = the value `Iterator::sum::<f32>()` starts from) -/
+def ticOf (add : α → α → α) (sumZero : α) (q : Array (Peak α)) : α :=
+  q.toList.foldl (fun s p => add s p.intensity) sumZero
+
+/-- `remove_matched_peaks` with both of its effects: the surviving peaks and the recomputed `total_ion_current` -/
+def removeMatchedTic [BEq α] (E : Env α β) (sumZero : α) (ftol : Tol α) (mfcCfg : Option Nat) (info : PepInfo α)
+    (peaks : Array (Peak α)) (pep z : Nat) : Array (Peak α) × α :=
+  let q := removeMatched E ftol mfcCfg info peaks pep z
+  (q, ticOf E.add sumZero q)
+
 end concrete
+
+/-- `label: peptide.label()` in `build_features`, `peptide = &self.db[score.peptide]`: `-1` for a decoy entry, `1` for a
+    target; `decoy[i]` = `db.peptides[i].decoy`. `none` = index out of bounds (a panic in the real code; `label_spec`
+    shows it never happens for a reported PSM). -/
+def labelAt (decoy : Array Bool) (pep : Nat) : Option Int :=
+  (decoy[pep]?).map fun d => if d then -1 else 1
+
+/-- the reported PSMs with their labels -/
+def withLabels {β : Type} (decoy : Array Bool) (ps : List (Psm β)) : List (Psm β × Option Int) :=
+  ps.map fun p => (p, labelAt decoy p.pep)
 
 /-! ## specification — the brute force of the property text
 
